@@ -145,7 +145,16 @@ def unsupplied_junctions(net, mg=None, slacks=None, respect_valves=True):
 
     mg = mg or create_nxgraph(net, respect_status_valves=respect_valves)
     if slacks is None:
-        slacks = set(net.ext_grid[net.ext_grid.in_service].junction.values)
+        # all junctions with a fixed pressure: in-service external grids of a pressure type and
+        # the flow junctions of in-service circulation pumps
+        slacks = set()
+        if "ext_grid" in net and len(net.ext_grid):
+            eg = net.ext_grid[net.ext_grid.in_service.values.astype(bool)]
+            slacks |= set(eg.junction.values[["p" in str(tp) for tp in eg.type.values]])
+        for pump_table in ("circ_pump_mass", "circ_pump_pressure"):
+            if pump_table in net and len(net[pump_table]):
+                cp = net[pump_table][net[pump_table].in_service.values.astype(bool)]
+                slacks |= set(cp.flow_junction.values)
     not_supplied = set()
     for cc in nx.connected_components(mg):
         if not set(cc) & slacks:
